@@ -80,7 +80,7 @@ func genNet(seed uint64, tier string, prop string) *Plan {
 	// gossipsub degrees
 	dlo := r.rng(1, 3)
 	d := r.rng(maxi(2, dlo), dlo+2)
-	dhi := r.rng(d, d+2)
+	dhi := r.rng(d, d+3)
 	dlazy := r.rng(0, 3)
 	dout := 0
 	if r.chance(0.5) {
@@ -116,8 +116,8 @@ func genNet(seed uint64, tier string, prop string) *Plan {
 	}
 	// degree caps inside which the random peer selections are exhaustive
 	gsB := dlo + dlazy
-	if dhi < gsB {
-		gsB = dhi
+	if dhi-1 < gsB {
+		gsB = dhi - 1 // see netWorld.classify
 	}
 	nocap := prop != "C01" || r.chance(0.12)
 	g.caps = make([]int, g.n)
@@ -399,7 +399,7 @@ func (g *netGen) genIslands() bool {
 	r := g.r
 	dlo, dlazy, dhi := g.p.ki("Dlo", 1), g.p.ki("Dlazy", 1), g.p.ki("Dhi", 2)
 	gs := dlo + 1
-	if g.n < 2*gs || dlazy < 1 || dhi < dlo+1 || strings.Trim(g.routers, "g") != "" {
+	if g.n < 2*gs || dlazy < 1 || dhi-1 < dlo+1 || strings.Trim(g.routers, "g") != "" {
 		return false
 	}
 	for i := 0; i < g.n; i++ {
